@@ -149,6 +149,9 @@ CHANNELS = [
     ('let-name', 'name', '<dtml-let v=%(A)s><dtml-var v></dtml-let>', lambda s, A: (Client('c', **{A: s}), {}), ('c', None)),
     ('expr-name', 'exprname', '<dtml-var "%(A)s">', lambda s, A: (Client('c', **{A: s}), {}), ('c', None)),
     ('with', 'with', '<dtml-with o><dtml-var %(A)s></dtml-with>', lambda s, A: (None, {'o': Client('c', **{A: s})}), ('c', None)),
+    # a with-object handed over as a 1-tuple (the shape _.namespace() returns) is still a client object
+    ('with-1tuple-expr', 'with', '<dtml-with "(o,)"><dtml-var %(A)s></dtml-with>', lambda s, A: (None, {'o': Client('c', **{A: s})}), ('c', None)),
+    ('with-1tuple', 'with', '<dtml-with ot><dtml-var %(A)s></dtml-with>', lambda s, A: (None, {'ot': (Client('c', **{A: s}),)}), ('c', None)),
     ('with-only', 'with', '<dtml-with o only><dtml-var %(A)s></dtml-with>', lambda s, A: (None, {'o': Client('c', **{A: s})}), ('c', None)),
     ('expr-attr', 'exprattr', '<dtml-var "o.%(A)s">', lambda s, A: (None, {'o': Client('c', **{A: s})}), ('c', None)),
     ('expr-attr-if', 'exprattr', '<dtml-if "o.%(A)s">T</dtml-if>', lambda s, A: (None, {'o': Client('c', **{A: s})}), ('c', None)),
